@@ -42,6 +42,62 @@ type hListener struct {
 	svc    string
 	li     *netceptor.Listener
 	closed int
+	mu     sync.Mutex
+	got    map[string]*netceptor.Conn // accepted connections by the dialler's address
+	pumped bool
+}
+
+// pump accepts continuously; connections are matched to dials by the dialler's (ephemeral) address, so that a
+// connection completed on the accepting side for a dial that was cancelled cannot be mistaken for the next one.
+func (l *hListener) pump() {
+	l.mu.Lock()
+	if l.pumped {
+		l.mu.Unlock()
+
+		return
+	}
+	l.pumped, l.got = true, map[string]*netceptor.Conn{}
+	l.mu.Unlock()
+	go func() {
+		for {
+			c, err := l.li.Accept()
+			if err != nil {
+				if strings.Contains(err.Error(), "listener closed") {
+					return
+				}
+				time.Sleep(time.Millisecond)
+
+				continue
+			}
+			l.mu.Lock()
+			l.got[c.RemoteAddr().String()] = c.(*netceptor.Conn)
+			l.mu.Unlock()
+		}
+	}()
+}
+
+func (l *hListener) take(addr string, ceiling time.Duration) *netceptor.Conn {
+	var c *netceptor.Conn
+	waitUntil(ceiling, time.Millisecond, func() bool {
+		l.mu.Lock()
+		defer l.mu.Unlock()
+		c = l.got[addr]
+		delete(l.got, addr)
+
+		return c != nil
+	})
+
+	return c
+}
+
+// strays closes connections nobody asked for (accepted for a dial that was cancelled).
+func (l *hListener) strays() {
+	l.mu.Lock()
+	defer l.mu.Unlock()
+	for k, c := range l.got {
+		_ = c.CloseConnection()
+		delete(l.got, k)
+	}
 }
 
 type hStream struct {
@@ -61,6 +117,7 @@ type hist struct {
 	nodes   []*mesh.Node
 	socks   []*hSock
 	lis     []*hListener
+	perm    []*hListener // one long-lived listener per node: part of the baseline, closed only after the residue is measured
 	streams []*hStream
 	seq     int
 	oplog   []string
@@ -125,6 +182,19 @@ func cmdC17Hist(args []string) {
 		os.Exit(0)
 	})
 	defer watchdog.Stop()
+	// long-running services: a stream's resources must be released while its listener lives on
+	for _, n := range h.nodes {
+		li, err := n.N.ListenAndAdvertise("perm", nil, nil)
+		if err != nil {
+			res.inconclusive("listen: %v", err)
+			res.write(*out)
+
+			return
+		}
+		pl := &hListener{node: n.ID, svc: "perm", li: li}
+		pl.pump() // its Accept goroutine belongs to the baseline
+		h.perm = append(h.perm, pl)
+	}
 	// warm-up: one of everything, so that lazily created state is part of the baseline
 	h.run(12, true)
 	h.closeAll()
@@ -167,6 +237,10 @@ func cmdC17Hist(args []string) {
 	res.Distinct = len(h.kinds)
 	if len(h.oplog) > 12 {
 		res.Samples = append(res.Samples, h.oplog[:12])
+	}
+	// the long-running services end too (after the residue was measured, before the traces are judged)
+	for _, l := range h.perm {
+		h.bounded("Listener.Close", 60*time.Second, func() { _ = l.li.Close() })
 	}
 	// per-object traces for TLC
 	if *traceOut != "" {
@@ -550,11 +624,10 @@ func (h *hist) opCloseListener() {
 	var wg sync.WaitGroup
 	inflight := h.rng.Intn(2) == 0
 	var dc *netceptor.Conn
-	var ac net.Conn
 	if inflight {
 		dn := h.other(h.node(l.node))
-		wg.Add(2)
-		go func() { defer wg.Done(); ac, _ = l.li.Accept() }()
+		l.pump()
+		wg.Add(1)
 		go func() {
 			defer wg.Done()
 			ctx, cancel := context.WithTimeout(context.Background(), 40*time.Second)
@@ -575,13 +648,11 @@ func (h *hist) opCloseListener() {
 	if dc != nil {
 		_ = dc.CloseConnection()
 	}
-	if ac != nil {
-		_ = ac.(*netceptor.Conn).CloseConnection()
-	}
+	l.strays()
 	// streams accepted from this listener earlier are closed by the listener (conn.Close on li.doneChan):
 	// the application still has to finish them; that happens in opStreamClose / closeAll
 	h.lis = append(h.lis[:i], h.lis[i+1:]...)
-	h.logf("close_listener %s %s inflight=%v dialled=%v accepted=%v closes=%d", l.node, l.svc, inflight, dc != nil, ac != nil, l.closed)
+	h.logf("close_listener %s %s inflight=%v dialled=%v accepted=%v closes=%d", l.node, l.svc, inflight, dc != nil, false, l.closed)
 }
 
 func (h *hist) opDial() {
@@ -594,13 +665,11 @@ func (h *hist) opDial() {
 		return
 	}
 	l := h.lis[h.rng.Intn(len(h.lis))]
-	dn := h.other(h.node(l.node))
-	type ar struct {
-		c   net.Conn
-		err error
+	if h.rng.Intn(2) == 0 {
+		l = h.perm[h.rng.Intn(len(h.perm))]
 	}
-	ach := make(chan ar, 1)
-	go func() { c, err := l.li.Accept(); ach <- ar{c, err} }()
+	dn := h.other(h.node(l.node))
+	l.pump()
 	ctx, cancel := context.WithTimeout(context.Background(), 60*time.Second)
 	defer cancel()
 	var d *netceptor.Conn
@@ -613,25 +682,21 @@ func (h *hist) opDial() {
 
 		return
 	}
-	select {
-	case r := <-ach:
-		if r.err != nil {
-			h.res.inconclusive("accept failed: %v", r.err)
-			_ = d.CloseConnection()
-
-			return
-		}
-		h.seq++
-		st := &hStream{id: h.seq, dn: dn.ID, an: l.node, d: d, a: r.c.(*netceptor.Conn)}
-		if a, ok := d.LocalAddr().(netceptor.Addr); ok {
-			st.dSvc = strings.SplitN(a.String(), ":", 2)[1]
-			h.dialSvc[dn.ID+":"+st.dSvc] = "dial"
-		}
-		h.streams = append(h.streams, st)
-		h.logf("dial %s -> %s:%s", dn.ID, l.node, l.svc)
-	case <-time.After(60 * time.Second):
+	ac := l.take(d.LocalAddr().String(), 60*time.Second)
+	if ac == nil {
 		h.res.inconclusive("accept did not return")
+		_ = d.CloseConnection()
+
+		return
 	}
+	h.seq++
+	st := &hStream{id: h.seq, dn: dn.ID, an: l.node, d: d, a: ac}
+	if a, ok := d.LocalAddr().(netceptor.Addr); ok {
+		st.dSvc = strings.SplitN(a.String(), ":", 2)[1]
+		h.dialSvc[dn.ID+":"+st.dSvc] = "dial"
+	}
+	h.streams = append(h.streams, st)
+	h.logf("dial %s -> %s:%s", dn.ID, l.node, l.svc)
 }
 
 func (h *hist) opStreamIO() {
@@ -737,25 +802,7 @@ func (h *hist) opDialFail() {
 		}
 		l := h.lis[h.rng.Intn(len(h.lis))]
 		dn := h.other(h.node(l.node))
-		accepted := make(chan net.Conn, 1)
-		stopAcc := make(chan struct{})
-		go func() {
-			type ar struct{ c net.Conn }
-			ch := make(chan ar, 1)
-			go func() { c, _ := l.li.Accept(); ch <- ar{c} }()
-			select {
-			case r := <-ch:
-				accepted <- r.c
-			case <-stopAcc:
-				// leave the Accept pending: the next dial or the listener's close ends it
-				go func() {
-					if r := <-ch; r.c != nil {
-						_ = r.c.(*netceptor.Conn).CloseConnection()
-					}
-				}()
-				accepted <- nil
-			}
-		}()
+		l.pump()
 		ctx, cancel := context.WithCancel(context.Background())
 		delay := time.Duration(h.rng.Intn(9000)) * time.Microsecond
 		go func() { time.Sleep(delay); cancel() }()
@@ -767,10 +814,7 @@ func (h *hist) opDialFail() {
 			_ = c.CloseConnection()
 		}
 		time.Sleep(20 * time.Millisecond)
-		close(stopAcc)
-		if ac := <-accepted; ac != nil {
-			_ = ac.(*netceptor.Conn).CloseConnection()
-		}
+		l.strays()
 		h.logf("dial_cancel %s -> %s:%s completed=%v", dn.ID, l.node, l.svc, err == nil)
 	}
 }
@@ -822,7 +866,12 @@ func (h *hist) closeAll() {
 		h.finishStream(st)
 	}
 	h.streams = nil
+	time.Sleep(50 * time.Millisecond)
+	for _, l := range h.perm {
+		l.strays()
+	}
 	for _, l := range h.lis {
+		l.strays()
 		h.bounded("Listener.Close", 60*time.Second, func() { _ = l.li.Close() })
 		h.logf("close_listener %s %s final", l.node, l.svc)
 	}
@@ -929,6 +978,7 @@ func writeObjectTraces(path string, recs []verifhook.Record) (int, error) {
 	}
 	for _, r := range recs {
 		n, _ := r["n"].(string)
+		n = strings.SplitN(n, "@", 2)[0] // pc_* events carry the node id, dp_* events the instance label id@epoch
 		ev, _ := r["ev"].(string)
 		svc, _ := r["svc"].(string)
 		switch ev {
